@@ -1020,6 +1020,12 @@ def exit_set_scope(ctx, rid: str) -> None:
          f"source state in the same region stays active next to the target", lp)
     if w_out is not None:
         w = w_out
+    elif w:
+        # the walker handed on under another name (an inlined helper's local):  branch = walker
+        al = [a.targets[0].id for a in own_nodes(f.node) if isinstance(a, (ast.Assign,)) and isinstance(a.targets[0], ast.Name) and isinstance(a.value, ast.Name)
+              and a.value.id == w and a.targets[0].id != w and a.lineno >= lp.lineno]
+        if len(set(al)) == 1 and len(assignments_to(f, al[0])) == 1:
+            w = al[0]
     narrowed = [x for st in pi.body for x in ast.walk(st) if isinstance(x, ast.SetComp)]
     if c.expect(rid, "narrowing of the exit set to the target's region", len(narrowed), 1, f, "the exit set is no longer narrowed to the region", pi) and w:
         nc = narrowed[0]
@@ -1035,6 +1041,68 @@ def exit_set_scope(ctx, rid: str) -> None:
              f"target's region stay active after the transition (two active children in one region), or states of sibling regions are exited", nc)
 
 
+def guard_pass_predicates(ctx, host: FuncInfo) -> Dict[str, FuncInfo]:
+    """The functions whose result *is* the guard evaluator's verdict for their first argument (the repo's nested ``_passes``; after
+    an extract-method refactoring a method such as ``self._guard_passes(t, event, cache)``).  Keyed by the callee text at a call
+    site (``_passes`` / ``self._guard_passes``).  Every return of such a function hands back ``_is_guard_satisfied(<p>.guard_def, ..)``
+    itself or the memo slot that was just filled with it."""
+    cache = getattr(ctx, "_gpp", None)
+    if cache is None:
+        cache = ctx._gpp = {}
+    if host.qualname in cache:
+        return cache[host.qualname]
+    cands: Dict[str, FuncInfo] = dict(host.nested)
+    if host.cls is not None:
+        for name, f in host.cls.methods.items():
+            cands.setdefault("self." + name, f)
+    out: Dict[str, FuncInfo] = {}
+    for key, f in cands.items():
+        params = [q for q in f.params if q not in ("self", "cls")]
+        if not params:
+            continue
+        evals = [x for x in own_nodes(f.node) if isinstance(x, ast.Call) and norm(x.func).endswith("_is_guard_satisfied") and x.args
+                 and norm(x.args[0]) == f"{params[0]}.guard_def"]
+        if not evals:
+            continue
+        rets = [r for r in own_nodes(f.node) if isinstance(r, ast.Return)]
+        memo = {norm(a.targets[0]) for a in own_nodes(f.node) if isinstance(a, ast.Assign) and a.value in evals}
+        if rets and all(r.value is not None and (r.value in evals or norm(r.value) in memo) for r in rets):
+            out[key] = f
+    cache[host.qualname] = out
+    return out
+
+
+def guard_pass_call(ctx, host: FuncInfo, e: ast.AST) -> Optional[str]:
+    """If *e* evaluates the guard of a transition - through a guard-pass predicate or directly - the text of that transition."""
+    if not isinstance(e, ast.Call) or not e.args:
+        return None
+    fn = norm(e.func)
+    if fn in guard_pass_predicates(ctx, host):
+        return norm(e.args[0])
+    if fn.endswith("_is_guard_satisfied") and norm(e.args[0]).endswith(".guard_def"):
+        return norm(e.args[0])[:-len(".guard_def")]
+    return None
+
+
+def candidate_appends(ctx, ce: FuncInfo) -> List[Tuple[FuncInfo, ast.Call, List[Tuple[ast.AST, bool]]]]:
+    """(owner, append call, guards) for every ``eligible.append(..)`` of candidate collection, including the ones in a nested
+    helper of it (guards of a helper's append: its own plus the ones at the helper's call sites that all of them share)."""
+    out = []
+    for owner in [ce] + list(ce.nested.values()):
+        for x in own_nodes(owner.node):
+            if isinstance(x, ast.Call) and isinstance(x.func, ast.Attribute) and x.func.attr == "append" and dotted(x.func.value) == "eligible" and x.args:
+                raw = list(guards_at(owner, x))
+                if owner is not ce:
+                    sites = [y for y in own_nodes(ce.node) if isinstance(y, ast.Call) and isinstance(y.func, ast.Name) and y.func.id == owner.name]
+                    shared_g = None
+                    for y in sites:
+                        gy = {(norm(a), pol): (a, pol) for a, pol in guards_at(ce, y)}
+                        shared_g = gy if shared_g is None else {k: v for k, v in shared_g.items() if k in gy}
+                    raw.extend((shared_g or {}).values())
+                out.append((owner, x, raw))
+    return out
+
+
 def eligible_bucket_rules(ctx, rid: str, which: str) -> None:
     """Candidate collection (``_collect_eligible_transitions``): a transition becomes a candidate only
       * when its own guard passes (``which='guard'``: a positive ``_passes(t)`` atom for the very transition appended), and
@@ -1046,25 +1114,24 @@ def eligible_bucket_rules(ctx, rid: str, which: str) -> None:
     from sa.util import canon_atom
     c, p = ctx.c, ctx.p
     ce = p.method("BaseInterpreter", "_collect_eligible_transitions")
-    apps = [x for x in own_nodes(ce.node) if isinstance(x, ast.Call) and isinstance(x.func, ast.Attribute) and x.func.attr == "append"
-            and dotted(x.func.value) == "eligible" and x.args]
+    apps = candidate_appends(ctx, ce)
     if not c.expect(rid, "appends to the candidate list", len(apps), 5, ce, "candidate collection no longer covers all five buckets (on, always, onDone, after, invoke)"):
         return
     n = 0
-    for x in apps:
+    for owner, x, raw in apps:
         item = norm(x.args[0])
-        raw = guards_at(ce, x)
         atoms = [canon_atom(a, pol) for a, pol in raw if not isinstance(a, ast.BoolOp)]
         consts = [a for a, pol in raw if isinstance(a, ast.Constant)]
-        loops = [l for l in enclosing_loops(ce, x) if isinstance(l, ast.For)]
+        loops = [l for l in enclosing_loops(owner, x) if isinstance(l, ast.For)]
         src = " ".join(norm(l.iter) for l in loops) + " " + item
         bucket = "after" if ".after" in src else ("invoke" if "on_done + " in src or ".invoke" in src else ("ondone" if item.endswith(".on_done") else
                  ("always" if "on['']" in src.replace('"', "'") else "on")))
         if which == "guard":
             n += 1
-            ok = ("truthy", f"_passes({item})", "", True) in atoms
+            ok = any(pol and guard_pass_call(ctx, ce, a) == item for a, pol in raw)
             c.ob(rid, ok, ce, f"guard-passes:{bucket}", f"a transition of the '{bucket}' bucket becomes a candidate only when its own guard passes" if ok else
-                 f"'{norm(x)}' ({bucket} bucket) is not under a positive '_passes({item})': a transition whose guard is false (or raised) can be selected", x)
+                 f"'{norm(x)}' ({bucket} bucket) is not under a positive guard evaluation of '{item}' (the repo's '_passes({item})'): a transition whose guard "
+                 f"is false (or raised) can be selected", x)
             continue
         if which != bucket:
             continue
@@ -1154,6 +1221,63 @@ def none_is_the_only_absence(ctx, rid: str, table) -> None:
 
 
 _MUTATORS = {"pop", "popitem", "clear", "update", "setdefault", "append", "extend", "insert", "remove", "sort", "reverse"}
+
+
+_OWN_CTORS = ("dict", "list", "set", "tuple", "sorted", "copy.deepcopy", "copy.copy", "deepcopy", "OrderedDict", "defaultdict")
+
+
+def _is_fresh(v: ast.AST) -> bool:
+    return isinstance(v, (ast.Dict, ast.List, ast.Set, ast.ListComp, ast.DictComp, ast.SetComp)) or \
+        (isinstance(v, ast.Call) and norm(v.func) in _OWN_CTORS)
+
+
+def param_is_library_scratch(p, f: FuncInfo, param: str, modules, depth: int = 3) -> bool:
+    """A parameter of a *private* function that only ever receives an object the library created itself (a memo table, an
+    accumulator): every call site in the engine passes a fresh local (``cache = {}``), nothing (a ``None`` default) or its own
+    parameter of the same kind.  Such an object is not the caller's data, whatever the function does with it."""
+    if depth < 0 or not f.name.startswith("_") or f.name.startswith("__"):
+        return False
+    names = [a for a in f.params]
+    sites = []
+    for g in p.funcs_in(*modules):
+        for x in own_nodes(g.node):
+            if isinstance(x, ast.Call) and ((isinstance(x.func, ast.Attribute) and x.func.attr == f.name) or (isinstance(x.func, ast.Name) and x.func.id == f.name)):
+                sites.append((g, x))
+    if not sites:
+        return False
+    for g, x in sites:
+        pos = [q for q in names if q not in ("self", "cls")] if isinstance(x.func, ast.Attribute) or f.cls is None else names
+        arg = None
+        if param in pos and pos.index(param) < len(x.args):
+            arg = x.args[pos.index(param)]
+        for k in x.keywords:
+            if k.arg == param:
+                arg = k.value
+        if any(isinstance(a, ast.Starred) for a in x.args) or any(k.arg is None for k in x.keywords):
+            return False
+        if arg is None or (isinstance(arg, ast.Constant) and arg.value is None):
+            continue
+        if _is_fresh(arg):
+            continue
+        if not isinstance(arg, ast.Name):
+            return False
+        outer = g
+        while outer is not None and arg.id not in outer.params and not any(
+                isinstance(a, (ast.Assign, ast.AnnAssign)) and isinstance((a.targets[0] if isinstance(a, ast.Assign) else a.target), ast.Name)
+                and (a.targets[0] if isinstance(a, ast.Assign) else a.target).id == arg.id for a in own_nodes(outer.node)):
+            outer = outer.parent          # a closure variable of the enclosing function
+        if outer is None:
+            return False
+        defs = [a for a in own_nodes(outer.node) if isinstance(a, (ast.Assign, ast.AnnAssign)) and
+                isinstance((a.targets[0] if isinstance(a, ast.Assign) else a.target), ast.Name) and (a.targets[0] if isinstance(a, ast.Assign) else a.target).id == arg.id]
+        if defs:
+            if not all(a.value is not None and _is_fresh(a.value) for a in defs):
+                return False
+            continue
+        if arg.id in outer.params and param_is_library_scratch(p, outer, arg.id, modules, depth - 1):
+            continue
+        return False
+    return True
 
 
 def definition_is_read_only(ctx, rid: str, modules, what: str) -> None:
@@ -1277,6 +1401,14 @@ def definition_is_read_only(ctx, rid: str, modules, what: str) -> None:
                     if isinstance(t, ast.Subscript) and rooted(t.value) and not (isinstance(t.value, ast.Name) and t.value.id in own):
                         hit = (x, rooted(t.value))
             if hit:
+                base = hit[0].func.value if isinstance(hit[0], ast.Call) else None
+                if base is None:
+                    tg0 = (hit[0].targets[0] if isinstance(hit[0], (ast.Assign, ast.Delete)) else hit[0].target)
+                    base = tg0.value if isinstance(tg0, ast.Subscript) else tg0
+                while isinstance(base, (ast.Attribute, ast.Subscript)):
+                    base = base.value
+                if isinstance(base, ast.Name) and base.id in params and param_is_library_scratch(p, f, base.id, modules):
+                    continue        # a memo / accumulator the library created and handed down to its own helper
                 n += 1
                 key = f"{norm(hit[0] if not isinstance(hit[0], ast.Call) else hit[0].func)[:48]}"
                 ok = (f.short, key) in DEFINITION_MUTATIONS_ACCEPTED
